@@ -58,10 +58,18 @@ func DestinationPoint(lat, lon, meters, bearingDegrees float64) (
 	θ := bearingDegrees * radians
 	φ1 := lat * radians
 	λ1 := lon * radians
-	φ2 := math.Asin(math.Sin(φ1)*math.Cos(δ) +
-		math.Cos(φ1)*math.Sin(δ)*math.Cos(θ))
-	λ2 := λ1 + math.Atan2(math.Sin(θ)*math.Sin(δ)*math.Cos(φ1),
-		math.Cos(δ)-math.Sin(φ1)*math.Sin(φ2))
+	sinφ1, cosφ1 := math.Sincos(φ1)
+	sinδ, cosδ := math.Sincos(δ)
+	sinθ, cosθ := math.Sincos(θ)
+	// the destination as a vector: z is along the polar axis, x and y are in
+	// the equatorial plane with x in the meridian plane of the start. Taking
+	// the angles with atan2 keeps the latitude well conditioned near the
+	// poles, where asin(z) loses half of its digits and fails for z > 1.
+	x := cosφ1*cosδ - sinφ1*sinδ*cosθ
+	y := sinθ * sinδ
+	z := sinφ1*cosδ + cosφ1*sinδ*cosθ
+	φ2 := math.Atan2(z, math.Hypot(x, y))
+	λ2 := λ1 + math.Atan2(y, x)
 	λ2 = math.Mod(λ2+3*math.Pi, 2*math.Pi) - math.Pi // normalise to -180..+180°
 	return φ2 * degrees, λ2 * degrees
 }
